@@ -814,6 +814,11 @@ func misspell(k string) []string {
 
 func famParse(tr *Trace, id *int) int {
 	n := 0
+	// every probe below hands the parser a mapping of its own: what the PROCESS environment holds is not part of it
+	for _, nm := range []string{"NFPM_PASSPHRASE", "NFPM_DEB_PASSPHRASE", "NFPM_RPM_PASSPHRASE", "NFPM_APK_PASSPHRASE", "VAR", "OTHER", "GOARM"} {
+		os.Setenv(nm, "from-the-process-environment-"+nm)
+		defer os.Unsetenv(nm)
+	}
 	paths := configKeyPaths("yaml")
 	emit := func(ev M) {
 		*id++
@@ -893,8 +898,11 @@ func famParse(tr *Trace, id *int) int {
 		}
 	}
 	// (b) expansion of every string-valued leaf
-	raws := []struct{ raw, tag string }{{"John Doe <john@example.com>", "mailbox"}, {"john.doe@example.com", "bareaddr"}, {"\"$EMPTYV\" <$VAR@example.com>", "emptyquoted"}, {"Zo\u00eb D\u00f6 <zoe@example.com>", "mailbox8"}, {"pre-$VAR-post", "dollar"}, {"pre-${VAR}-post", "brace"}, {"plain value", "plain"}, {"  ${VAR}  ", "padded"}, {"${EMPTYV}", "vanish"}, {"$VAR$OTHER", "two"}, {"  padded plain  ", "paddedplain"}, {"~/keys/plain.key", "tilde"}, {"~${VAR}/x", "tildevar"}}
-	envs := []map[string]string{{"VAR": "val", "OTHER": "o2", "HOME": "/home/builder", "USER": "builder"}, {}, {"VAR": "  spaced  "}}
+	raws := []struct{ raw, tag string }{{"John Doe <john@example.com>", "mailbox"}, {"john.doe@example.com", "bareaddr"}, {"\"$EMPTYV\" <$VAR@example.com>", "emptyquoted"}, {"arm", "goarch-arm"}, {"Zo\u00eb D\u00f6 <zoe@example.com>", "mailbox8"}, {"pre-$VAR-post", "dollar"}, {"pre-${VAR}-post", "brace"}, {"plain value", "plain"}, {"  ${VAR}  ", "padded"}, {"${EMPTYV}", "vanish"}, {"$VAR$OTHER", "two"}, {"  padded plain  ", "paddedplain"}, {"~/keys/plain.key", "tilde"}, {"~${VAR}/x", "tildevar"}}
+	// (the third mapping: a value that itself looks like a reference - it is a value, substituted once; and GOARM next to a
+	// literal "arm", which has nothing to do with it)
+	envs := []map[string]string{{"VAR": "val", "OTHER": "o2", "HOME": "/home/builder", "USER": "builder"}, {}, {"VAR": "  spaced  "},
+		{"VAR": "pa$$w0rd-$OTHER-${OTHER}", "OTHER": "o2", "GOARM": "7", "EMPTYV": ""}}
 	for _, k := range paths {
 		if k.Kind != "string" && k.Kind != "list" && k.Kind != "map" && k.Kind != "ptr" {
 			continue
@@ -995,7 +1003,7 @@ func famParse(tr *Trace, id *int) int {
 		env := map[string]string{}
 		for i, nm := range names {
 			if mask&(1<<i) != 0 {
-				env[nm] = []string{"pw-" + strings.ToLower(nm), " pw " + nm + "\t", "pw-" + nm + "\n"}[mask%3] // (a passphrase is used as it is, blanks and all)
+				env[nm] = []string{"pw-" + strings.ToLower(nm), " pw " + nm + "\t", "pw-" + nm + "\n", "pa$$w0rd-$NFPM_PASSPHRASE-" + nm}[mask%4] // (a passphrase is used as it is, blanks, dollars and all)
 			}
 		}
 		cfg, _, err := parseDoc(minimalDoc(), env)
